@@ -19,6 +19,7 @@ from hugr.ops import (
     Const,
     Custom,
     DataflowBlock,
+    DataflowOp,
     ExitBlock,
     FuncDecl,
     FuncDefn,
@@ -58,8 +59,11 @@ class ModelExport:
         """Export the node with the given node id."""
         node_data = self.hugr[node]
 
-        inputs = [self.link_name(InPort(node, i)) for i in range(node_data._num_inps)]
-        outputs = [self.link_name(OutPort(node, i)) for i in range(node_data._num_outs)]
+        # exactly the value ports of the operation's signature (control ports for
+        # basic blocks): not the static port, and also the unconnected ones
+        num_inps, num_outs = self._value_port_counts(node)
+        inputs = [self.link_name(InPort(node, i)) for i in range(num_inps)]
+        outputs = [self.link_name(OutPort(node, i)) for i in range(num_outs)]
         meta = []
 
         # Export JSON metadata
@@ -371,6 +375,19 @@ class ModelExport:
                 error = f"Unknown operation: {op}"
                 raise ValueError(error)
 
+    def _value_port_counts(self, node: Node) -> tuple[int, int]:
+        """Number of value (or control flow) input and output ports of a node."""
+        match self.hugr[node].op:
+            case DataflowBlock() as op:
+                return 1, len(op.sum_ty.variant_rows)
+            case Call() as op:
+                return len(op.instantiation.input), len(op.instantiation.output)
+            case DataflowOp() as op:
+                sig = op.outer_signature()
+                return len(sig.input), len(sig.output)
+            case _:
+                return 0, 0
+
     def export_region_module(self, node: Node) -> model.Region:
         """Export a module node as a module region."""
         node_data = self.hugr[node]
@@ -401,15 +418,13 @@ class ModelExport:
                 case Input() as op:
                     source_types = model.List([type.to_model() for type in op.types])
                     sources = [
-                        self.link_name(OutPort(child, i))
-                        for i in range(child_data._num_outs)
+                        self.link_name(OutPort(child, i)) for i in range(len(op.types))
                     ]
 
                 case Output() as op:
                     target_types = model.List([type.to_model() for type in op.types])
                     targets = [
-                        self.link_name(InPort(child, i))
-                        for i in range(child_data._num_inps)
+                        self.link_name(InPort(child, i)) for i in range(len(op.types))
                     ]
 
                 case _:
